@@ -338,6 +338,10 @@ def run(cx: Cx):
                 cx.ok('R-FRESH', f"{ci.name}.open_file hands out a description parsed in the call", where=cx.where(ofn), function=ofn.qualname)
     from .common import check_no_stateful_memo
     check_no_stateful_memo(cx)
+    # the lifecycle is verified on Decoder.decode: the bundled decoders specialise open_file only (an override of decode that changes
+    # process-wide state around the call - the working directory, ... - leaves it changed when decoding fails)
+    from .common import check_overrides_forward
+    check_overrides_forward(cx, DEC + 'Decoder', ['decode'])
     from .common import include_premises
     include_premises(cx, ['C01'], 'listed systems are registered with their declared scheduling by add_system')
     include_premises(cx, ['C02'], 'the declared start / end / frequency are the window the scheduler uses')
